@@ -47,6 +47,10 @@ def battery(rng, tier):
         env = {k: rng.choice(gen_misc.LITS) for k in gen_misc.VARS}
         env["python_full_version"] = rng.choice(["3.12.1", "3.8.0", "3.13.0+"]); env["python_version"] = rng.choice(["3.12", "3.8"])
         out.append(Case("battery", "det.marker", [gen_misc.marker(rng, 3), json.dumps(env)]))
+        # partial mappings and the legacy extra=None: the caller's mapping must come back exactly as it went in
+        part = {k: env[k] for k in rng.sample(sorted(env), rng.choice([0, 1, 3]))}
+        part["extra"] = rng.choice([None, None, "", "foo_bar", "Foo.Bar"])
+        out.append(Case("battery", "det.marker", [rng.choice([gen_misc.marker(rng, 2), 'extra == "foo-bar"', 'extra != "x" or os_name == "a"']), json.dumps(part)]))
         envs = []
         for _ in range(rng.choice([2, 3, 4])):
             e2 = dict(env)
